@@ -281,5 +281,42 @@ def handedLoop (all : List Property) : List PropsRet → List (List Property)
 /-- the filter every tag processor applies to the list it is handed (`if p.Tag != tag { continue }`) -/
 def ofTag (tag : Bytes) (handed : List Property) : List Property := handed.filter (fun q => q.tag = tag)
 
+/-! ### a component that is ITSELF a post-processor: by which processors it is populated
+
+    container/factory/post_processor_registration_delegate.go:49-62 (InvokeBeanFactoryPostProcessors), after the sort:
+
+        for _, processor := range f.rawComponentPostProcessors {            -- the SORTED raw processors
+            if _, lazy := processor.(definition.LazyInit); !lazy {
+                instance, err := factory.GetComponentByName(name(processor)) -- creates AND POPULATES the processor as a component:
+                …                                                            -- ResolveAfterInstantiation (delegate:213) ranges over
+            }                                                                -- f.componentPostProcessors AS IT IS AT THIS MOMENT
+            f.componentPostProcessors = append(f.componentPostProcessors, processor)
+        }
+
+    so a non-lazy user post-processor that carries tagged fields of its own has them served by exactly the processors
+    registered so far — those sorted ahead of it; every other component is created later (Refresh) under the final chain. -/
+
+/-- a raw post-processor as the loop sees it: who it is, and whether it is a definition.LazyInit -/
+structure RawPP (α : Type) where
+  id : α
+  lazy : Bool
+deriving DecidableEq, Repr
+
+/-- the loop; `cpp` = f.componentPostProcessors on entry of the iteration.  Result: for every processor the loop creates
+    (the non-lazy ones, in order) the chain it is populated by, and the final f.componentPostProcessors.
+    (A failing GetComponentByName ends Run with an error: not C11's subject, see Order.registerLoop for that exit.) -/
+def populateLoop {α : Type} : List (RawPP α) → List α → List (α × List α) × List α
+  | [], cpp => ([], cpp)
+  | p :: rest, cpp =>
+    let r := populateLoop rest (cpp ++ [p.id])            -- delegate:60  append, then the next iteration
+    (if p.lazy then r.1 else (p.id, cpp) :: r.1, r.2)      -- delegate:52  GetComponentByName: populated under `cpp`
+
+/-- the chain a processor is populated by when the loop creates it (`none`: lazy, or not among the raw processors) -/
+def populatedBy {α : Type} [DecidableEq α] (sorted : List (RawPP α)) (cpp : List α) (h : α) : Option (List α) :=
+  ((populateLoop sorted cpp).1.find? (fun e => e.1 = h)).map (·.2)
+
+/-- the chain every OTHER component is populated by (created by Refresh, after the loop) -/
+def finalChain {α : Type} (sorted : List (RawPP α)) (cpp : List α) : List α := (populateLoop sorted cpp).2
+
 end Scan
 end Ioc
